@@ -38,6 +38,10 @@ def curated():
         SC(cAny(V("std"), N("All", x(), V("w"), id="sport"), id="seat", default=["std"]), N("Any", N("All", x(), V("w"), id="sport"), N("All", V("p"), V("q"), id="comfort"), id="pack")),
         SC(cXor(a(), N("Any", b(), c(), id="G"), id="X", default=["a"])),
         SC(cAny(a(), N("All", b(), c(), id="G"), d(), id="A", default=["a"]), N("Imply", e(), N("All", b(), c(), id="G"), id="R")),
+        # a defaulted rule nested inside rules that carry no default themselves
+        SC(cAny(cXor(x(), y(), z(), id="X", default=["z"]), V("w"), id="A")),
+        SC(N("Any", cXor(x(), y(), id="X", default=["x"]), N("All", a(), b(), id="B"), id="A"), N("Imply", c(), cAny(d(), e(), id="D", default=["e"]), id="R")),
+        SC(N("All", N("Any", cAny(a(), b(), c(), id="K", default=["b"]), d(), id="B"), id="A")),
     ]
     return L
 
